@@ -89,4 +89,70 @@ theorem wfSeq_mono_le {n m : Nat} (h : n ≤ m) (toks : List Json) (ctx : TokCtx
   | refl => exact hw
   | step _ ih => exact wfSeq_mono _ _ _ _ _ ih
 
+/-! ### the attribute shape of core tokens (for C02: `refinedOk` of the render templates) -/
+
+/-- values that are safe whatever a template does with them: numbers, booleans, `None` -/
+def plainJ : Json → Bool
+  | .num _ => true
+  | .bool _ => true
+  | .null => true
+  | _ => false
+
+/-- the `attrs` of a token of type `ty`: every value is plain, except `url` / `title` of links and images and `info`
+of code blocks (document data, which the templates must escape) -/
+def attrsShape (ty : String) : Option Json → Bool
+  | some (.obj kv) => kv.all (fun p => plainJ p.2 ||
+      ((ty == "link" || ty == "image") && (p.1 == "url" || p.1 == "title")) || (ty == "block_code" && p.1 == "info"))
+  | _ => true
+
+/-- the token types the plugin-free parser produces -/
+def coreTys : List String :=
+  ["paragraph", "block_text", "heading", "block_code", "block_html", "thematic_break", "blank_line", "block_quote",
+   "list", "list_item", "text", "codespan", "inline_html", "emphasis", "strong", "link", "image", "linebreak",
+   "softbreak", "footnote_ref"]
+
+/-- every token of the tree has a core type and `attrs` of the shape `attrsShape`; fuel bounds the depth -/
+def shp : Nat → Json → Bool
+  | 0, _ => false
+  | k + 1, t =>
+    coreTys.contains t.type && attrsShape t.type (t.get? "attrs") &&
+    (match t.get? "children" with
+     | some (.arr cs) => cs.all (shp k)
+     | _ => true)
+
+def shpAll (k : Nat) (l : List Json) : Bool := l.all (shp k)
+
+theorem shp_mono : ∀ (k : Nat) (t : Json), shp k t = true → shp (k + 1) t = true := by
+  intro k
+  induction k with
+  | zero => intro t h; simp [shp] at h
+  | succ k ih =>
+    intro t h
+    unfold shp at h ⊢
+    simp only [Bool.and_eq_true] at h ⊢
+    refine ⟨h.1, ?_⟩
+    have h2 := h.2
+    split
+    · rename_i cs hcs
+      rw [hcs] at h2
+      simp only [List.all_eq_true] at h2 ⊢
+      exact fun c hc => ih c (h2 c hc)
+    · rfl
+
+theorem shpAll_mono_le {n m : Nat} (h : n ≤ m) (l : List Json) (hl : shpAll n l = true) : shpAll m l = true := by
+  induction h with
+  | refl => exact hl
+  | step _ ih =>
+    unfold shpAll at ih ⊢
+    rw [List.all_eq_true] at ih ⊢
+    exact fun t ht => shp_mono _ t (ih t ht)
+
+theorem shpAll_append (k : Nat) (a b : List Json) : shpAll k (a ++ b) = (shpAll k a && shpAll k b) := by
+  simp only [shpAll, List.all_append]
+
+/-- the shape depends on `type`, `attrs`, `children` only -/
+theorem shp_congr (k : Nat) (t t' : Json) (h1 : t'.get? "type" = t.get? "type") (h2 : t'.get? "attrs" = t.get? "attrs")
+    (h3 : t'.get? "children" = t.get? "children") : shp (k + 1) t' = shp (k + 1) t := by
+  simp only [shp, Json.type, Json.getStr, h1, h2, h3]
+
 end Mistune
